@@ -81,6 +81,20 @@ def _dense_cases(ns, tables):
     return out
 
 
+def _dense_special_cases(tables):
+    out = []
+    for t in tables:
+        for gen in ('std', 'gen'):
+            for cls in ('rsym', 'rgen_real', 'csym'):
+                if cls in re_.DENSE_CLASSES:
+                    out.append({'path': 'dense', 'n': 2, 'cls': cls, 'gen': gen, 'table': t, 'special': 'zeromean'})
+    for n in (2, 3, 5):
+        for cls in re_.DENSE_CLASSES:
+            for gen in ('std', 'gen', 'genmix'):
+                out.append({'path': 'dense', 'n': n, 'cls': cls, 'gen': gen, 'table': tables[0], 'layout': 'F'})
+    return out
+
+
 def _sparse_cases(grids, bcs, variants, tables):
     out = []
     for g in grids:
@@ -96,11 +110,14 @@ def generate(tier, seed):
     t = seed % re_.NTABLES
     if tier == 'quick':
         yield from _dense_cases(DENSE_N, [t])
+        yield from _dense_special_cases([t, (t + 1) % re_.NTABLES])
         yield from _sparse_cases(SPARSE_GRIDS_Q, BCS[:2], ['sym', 'herm', 'csym', 'unsym'], [t])
         return
     # cheap levels first, so that the runner's time prediction for the next level is not dominated by the sparse cases
     yield {'__level__': 'dense design lattice (n in 2,3,5,8; table of the seed)'}
     yield from _dense_cases(DENSE_N, [t])
+    yield {'__level__': 'dense special: eigenvector with exactly zero mean; Fortran-ordered inputs'}
+    yield from _dense_special_cases(list(range(re_.NTABLES)))
     yield {'__level__': 'dense n in 1..8,12 x all 10 value tables'}
     base = {(c['n'], c['table']) for c in _dense_cases(DENSE_N, [t])}
     yield from [c for c in _dense_cases(list(range(1, 9)) + [12], list(range(re_.NTABLES)))
@@ -236,6 +253,14 @@ def exec_dense(case):
     A = re_.dense_A(cls, n, t)
     bk = re_.b_kind(cls, gen)
     B = None if bk is None else re_.dense_B(bk, n, t)
+    if case.get('special') == 'zeromean':
+        # 2x2 [[a, b], [b, a]]: eigenvectors (1, 1) and (1, -1) -- the second has an exactly zero mean, so the documented
+        # sign convention (non-negative mean) leaves its sign open; B with the same structure shares the eigenvectors
+        a_, b_ = 2.0 + 0.5 * t, (-1.0 if t % 2 == 0 else 1.0)
+        A = np.array([[a_, b_], [b_, a_]]) * (1j if cls == 'csym' else 1.0)
+        B = None if gen == 'std' else np.array([[2.0, 0.5], [0.5, 2.0]])
+    layout = case.get('layout', 'C')
+    hold = (lambda M: np.asfortranarray(M.copy())) if layout == 'F' else (lambda M: M.copy())
     Wr, Qr = re_.ref_eig(A, B)
     rho = re_.bilinear_ratio(Qr, B)
     if np.min(rho) < 1e-3:
@@ -251,7 +276,9 @@ def exec_dense(case):
                 continue
             sig = {'path': 'dense', 'kind': 'c' if (np.iscomplexobj(A) or (B is not None and np.iscomplexobj(B))) else 'r',
                    'gen': gen != 'std'}
-            sigs = [pym.Signal('A', A.copy())] + ([pym.Signal('B', B.copy())] if B is not None else [])
+            sigs = [pym.Signal('A', hold(A))] + ([pym.Signal('B', hold(B))] if B is not None else [])
+            if layout == 'F':
+                sig['layout'] = 'fortran'
             kw = {}
             if re_.SORTINGS[sortname] is not None:
                 kw['sorting_func'] = re_.SORTINGS[sortname]
@@ -262,6 +289,9 @@ def exec_dense(case):
                 continue
             J.transitions += 1
             J.judged += 1
+            unchanged = np.array_equal(sigs[0].state, A) and (B is None or np.array_equal(sigs[1].state, B))
+            J.chk(unchanged, 'input_changed', sub, _sig(sig, 'layout') if layout == 'F' else {'path': 'dense'},
+                  A_now=np.asarray(sigs[0].state), A=A)
             ok = J.chk(W.shape == (n,) and Q.shape == (n, n), 'count', sub, {'path': 'dense'}, W_shape=W.shape,
                        Q_shape=Q.shape)
             if not ok:
@@ -274,7 +304,7 @@ def exec_dense(case):
             _common_pair_checks(J, sub, sig, A, B, W, Q, realsym, sortname)
             J.outcomes.add(f"dense/{cls}/{gen}/W{W.dtype.kind}Q{Q.dtype.kind}/{sortname}/"
                            f"{'sorted' if _is_identity_needed(W, Q, sortname) else 'perm'}")
-    return _finish(J, case, f"dense|{n}|{cls}|{gen}|{t}")
+    return _finish(J, case, f"dense|{n}|{cls}|{gen}|{t}|{case.get('special')}|{layout}")
 
 
 def _is_identity_needed(W, Q, sortname):
